@@ -1,7 +1,9 @@
 ------------------------- MODULE RequirementsTrace -------------------------
 (* Batch acceptor for recordings of the real requirements code (C20).  A case is a history  *)
 (*   [id, runs : << run >>]   of starts of pyscript against one environment; a run is        *)
-(*   lines : the classified requirement lines of all files (any order)                      *)
+(*   lines : the requirement lines of all files (any order), each [f, p, v, toks]: toks is   *)
+(*           the text written to the file as a token sequence (RequirementsCore!Classify     *)
+(*           says what it means), f, p, v the generator's label (cross-checked: "bridge")   *)
 (*   sels  : tables returned by process_all_requirements, one per tried permutation of the  *)
 (*           files and lines:  << [p |-> name, r |-> [k |-> "pin", v] | [k |-> "unpinned"]   *)
 (*           | [k |-> "garbage"]] >>                                                         *)
@@ -29,7 +31,8 @@ RunVerdict(r) ==
   LET L == LineSet(r.lines)
       want == [p \in P4 |-> Select(L, p)]
       ins == { p \in P4 : Decide(r.inst[p], r.rec[p], want[p], r.allow) }
-  IN IF \E i \in 1..Len(r.sels) : ~Matches(r.sels[i], L, Mentioned(L)) THEN "selection"
+  IN IF \E l \in L : ~LabelOk(l) THEN "bridge"                                 \* the generator wrote something else than it meant
+     ELSE IF \E i \in 1..Len(r.sels) : ~Matches(r.sels[i], L, Mentioned(L)) THEN "selection"
      ELSE IF r.exc # "" THEN "exception"
      ELSE IF ~Matches(r.calls, L, ins) THEN "install"
      ELSE IF r.extra # 0 \/ \E p \in P4 :
